@@ -36,6 +36,9 @@ def main(argv):
                 continue
             meta = json.load(open(os.path.join(d, "meta.json")))
             prop = meta["property"]
+            if meta.get("status") == "neutralised":
+                print(f"{name:<12} {prop} NEUTRALISED (a later fix: commit in /repo makes this change harmless; not counted)")
+                continue
             r = sh("git", "apply", "--3way", os.path.join(d, "patch.diff"), cwd=wt)
             if r.returncode:
                 results[name] = {"status": "PATCH-CONFLICT"}
